@@ -291,6 +291,14 @@ fn run_child(args: &[String], timeout: Duration) -> Result<J, String> {
     Err(format!("child printed no result: {}", out.chars().take(200).collect::<String>()))
 }
 
+/// run one recorded schedule and return its per-thread results (for replay)
+pub fn replay_schedule(workload: &str, choices: &str) -> String {
+    match run_child(&["sched".into(), workload.into(), "1".into(), choices.trim().to_string()], Duration::from_secs(30)) {
+        Ok(j) => format!("obs={} deadlock={} diverged={}", j["obs"], j["deadlock"], j["diverged"]),
+        Err(e) => format!("child failed: {}", e),
+    }
+}
+
 /// all interleavings of the threads' call sequences, as orders of thread ids
 fn sequential_orders(w: &Workload) -> Vec<Vec<usize>> {
     fn go(rem: &mut Vec<usize>, cur: &mut Vec<usize>, out: &mut Vec<Vec<usize>>) {
@@ -317,7 +325,7 @@ fn sequential_orders(w: &Workload) -> Vec<Vec<usize>> {
 fn bound_for(w: &Workload, tier: Tier) -> usize {
     match (w.threads.len(), tier) {
         (2, Tier::Quick) => 3,
-        (2, Tier::Thorough) => 5,
+        (2, Tier::Thorough) => 4,
         (_, Tier::Quick) => 1,
         (_, Tier::Thorough) => 2,
     }
@@ -460,7 +468,7 @@ impl Prop for C13 {
                  Reductions (both commute arguments, checked dynamically): locks of a thread's own Context and reads of an already-set cell are not preemption candidates; after initialisation, locks of registries the workload never writes are not candidates. \
                  Oracle: per-thread result vectors equal those of some sequential order of the calls (orders run in fresh processes), no panic, no deadlock, replay divergence = machinery error. distinct = distinct per-thread result vectors over all workloads",
                 ws.len(),
-                tier.pick(3, 5),
+                tier.pick(3, 4),
                 tier.pick(1, 2)
             ),
             assumptions: vec![
@@ -469,13 +477,14 @@ impl Prop for C13 {
                 "a blocking primitive the hooks do not wrap shows up as 'uncontrolled blocking' (exit 2), never as a pass".into(),
             ],
             exhaustive: true,
-            bound: format!("preemption bound {} (2 threads) / {} (3 threads); threads <= 3; calls <= 2 per thread", tier.pick(3, 5), tier.pick(1, 2)),
+            bound: format!("preemption bound {} (2 threads) / {} (3 threads); threads <= 3; calls <= 2 per thread", tier.pick(3, 4), tier.pick(1, 2)),
             states_note: "states = distinct scheduler states (per-thread progress vectors) visited; transitions = scheduling decisions taken over all schedules".into(),
         }
     }
     fn run(&self, tier: Tier, stage: usize, _a: u64, _b: u64, out: &mut WorkerOut) {
         let ws = workloads();
         let w = &ws[stage];
+        out.idx = Some(0);
         let jobs = std::env::var("VERIF_JOBS").ok().and_then(|s| s.parse().ok()).unwrap_or(16usize);
         // sequential reference: every order of the calls, each in a fresh process
         let mut allowed: BTreeSet<String> = BTreeSet::new();
